@@ -687,23 +687,23 @@ func runC18(c *Ctx) int {
 		c.Inconclusive("no configuration reached a rejection / the within-limit assertion")
 	}
 	cov := map[string]any{
-		"evaluations":         tot.cfgs,
-		"distinct_nontrivial": len(nontriv),
-		"rule": "grid: page size {1024,4096,16384} x limit {each power of two from 32 KiB to 1 MiB: exact, -1, +1, +511, -511, +/- one page, 1.5x, odd; chunk+13; 2 MiB - page - 1; smallest honourable limit (8 pages) and +1; 12 pages+100} x InitialMmapSize {0, 64 KiB, 8 MiB, 64 MiB} x AllocSize {default, 64 KiB} x backend, with grow-sync / freelist-sync / fill style (small random keys, ascending keys, multi-page values, mixed with deletes, nested buckets) drawn per configuration, plus files pre-grown beyond the limit before being opened with it. quick = two seeded configurations per (page size, limit kind, initial map size) and 4 per pre-grown class; thorough = whole grid x 3 workload seeds. Each configuration: fill until rejected (<= 600 txs), write attempts after the rejection, delete half + release, refill to a second rejection, close, reopen, write, close. Monitors: stat length after every operation and every truncate request / write extent at the I/O hook <= max(limit, length at open); error class; dump == model, Tx.Check, D accounting and allocator export after every rejection; within-limit assertion when >= 12 free pages. Non-trivial: at least one rejection; distinct = configuration fingerprint incl. outcome shape.",
-		"samples":                             samples,
-		"configurations_with_rejection":       tot.withRej,
-		"transactions":                        tot.txs,
-		"committed":                           tot.commits,
-		"rejected_with_size_limit_error":      tot.rej,
-		"state_and_accounting_checks":         tot.state,
-		"within_limit_assertions_evaluated":   tot.must,
-		"reopens":                             tot.reopens,
-		"truncate_requests_seen":              tot.trunc,
-		"write_events_seen":                   tot.writes,
+		"evaluations":                          tot.cfgs,
+		"distinct_nontrivial":                  len(nontriv),
+		"rule":                                 "grid: page size {1024,4096,16384} x limit {each power of two from 32 KiB to 1 MiB: exact, -1, +1, +511, -511, +/- one page, 1.5x, odd; chunk+13; 2 MiB - page - 1; smallest honourable limit (8 pages) and +1; 12 pages+100} x InitialMmapSize {0, 64 KiB, 8 MiB, 64 MiB} x AllocSize {default, 64 KiB} x backend, with grow-sync / freelist-sync / fill style (small random keys, ascending keys, multi-page values, mixed with deletes, nested buckets) drawn per configuration, plus files pre-grown beyond the limit before being opened with it. quick = two seeded configurations per (page size, limit kind, initial map size) and 4 per pre-grown class; thorough = whole grid x 3 workload seeds. Each configuration: fill until rejected (<= 600 txs), write attempts after the rejection, delete half + release, refill to a second rejection, close, reopen, write, close. Monitors: stat length after every operation and every truncate request / write extent at the I/O hook <= max(limit, length at open); error class; dump == model, Tx.Check, D accounting and allocator export after every rejection; within-limit assertion when >= 12 free pages. Non-trivial: at least one rejection; distinct = configuration fingerprint incl. outcome shape.",
+		"samples":                              samples,
+		"configurations_with_rejection":        tot.withRej,
+		"transactions":                         tot.txs,
+		"committed":                            tot.commits,
+		"rejected_with_size_limit_error":       tot.rej,
+		"state_and_accounting_checks":          tot.state,
+		"within_limit_assertions_evaluated":    tot.must,
+		"reopens":                              tot.reopens,
+		"truncate_requests_seen":               tot.trunc,
+		"write_events_seen":                    tot.writes,
 		"configurations_pregrown_beyond_limit": tot.pre,
-		"configurations_where_file_grew":      tot.grew,
-		"grid_size":                           len(grid),
-		"distinct_fingerprints_all":           len(fps),
+		"configurations_where_file_grew":       tot.grew,
+		"grid_size":                            len(grid),
+		"distinct_fingerprints_all":            len(fps),
 	}
 	return c.Finish("exploration", cov, []string{
 		"limits below 8 pages are not generated (an empty database already has 4 pages and its first transaction needs more)",
